@@ -101,7 +101,103 @@ def run_connect_case(case):
     return res
 
 
+def stack_signature(case, order):
+    """one producer, consumers behind one StackTime adapter each (collects every publication up to the requested time)"""
+    import numpy as np
+    from core.common import T0, H, compose, fm, hrs
+
+    grid = fm.UniformGrid((2, 3))  # (StackTime on a NoGrid link fails in the base Adapter for more than one entry: outside C05, same in every order)
+
+    class Prod(fm.TimeComponent):
+        def __init__(self, step):
+            super().__init__()
+            self._time, self.step = T0, step
+
+        def _next_time(self):
+            return self.time + H(self.step)
+
+        def _initialize(self):
+            self.outputs.add(name="o", time=self.time, grid=grid, units="")
+            self.create_connector()
+
+        def _connect(self, st):
+            self.try_connect(st, push_data={"o": np.full((1, 2), float(hrs(self.time)))})
+
+        def _validate(self):
+            pass
+
+        def _update(self):
+            self._time += H(self.step)
+            self.outputs["o"].push_data(np.full((1, 2), float(hrs(self.time))), self.time)
+
+        def _finalize(self):
+            pass
+
+    class Cons(fm.TimeComponent):
+        def __init__(self, step):
+            super().__init__()
+            self._time, self.step, self.series = T0, step, []
+
+        def _next_time(self):
+            return self.time + H(self.step)
+
+        def _initialize(self):
+            self.inputs.add(name="i", time=self.time, grid=None, units=None)
+            self.create_connector(pull_data=["i"])
+
+        def _connect(self, st):
+            self.try_connect(st)
+            d = self.connector.in_data.get("i")
+            if d is not None and not self.series:
+                self.series.append((0.0, [round(float(x), 9) for x in np.asarray(d.magnitude)[:, 0, 0]]))
+
+        def _validate(self):
+            pass
+
+        def _update(self):
+            self._time += H(self.step)
+            d = self.inputs["i"].pull_data(self.time)
+            self.series.append((float(hrs(self.time)), [round(float(x), 9) for x in np.asarray(d.magnitude)[:, 0, 0]]))
+
+        def _finalize(self):
+            pass
+
+    comps = {"A": Prod(case["pstep"])}
+    for k, st in enumerate(case["csteps"]):
+        comps["BCD"[k]] = Cons(st)
+    comp = compose([comps[n] for n in order])
+    for k in range(len(case["csteps"])):
+        comps["A"].outputs["o"] >> fm.adapters.StackTime() >> comps["BCD"[k]].inputs["i"]
+    try:
+        comp.run(end_time=T0 + H(case["end"]))
+        out = "done"
+    except Exception as e:  # noqa
+        out = type(e).__name__
+    if out != "done":
+        return dict(outcome=out)
+    return dict(outcome=out, times={n: float(hrs(c.time)) for n, c in comps.items()}, series={n: c.series for n, c in comps.items() if n != "A"})
+
+
+def run_stack_case(case):
+    res = dict(n=0, traces=0, states=0, transitions=0, nontrivial=1, counters={"stack_time_configs": 1}, violations=[])
+    names = ["A"] + ["BCD"[k] for k in range(len(case["csteps"]))]
+    base = stack_signature(case, names)
+    for o in [tuple(case["order"])] if case.get("order") else itertools.permutations(names):
+        sig = stack_signature(case, list(o))
+        res["n"] += 1
+        res["traces"] += 1
+        res["states"] += sum(len(v) for v in sig.get("series", {}).values())
+        if sig != base:
+            what = [k for k in base if sig.get(k) != base[k]] or ["outcome"]
+            res["violations"].append(viol(dict(kind="outcome_depends_on_order", differs=what[0], config="stacktime", base=base["outcome"], other=sig["outcome"]), f"StackTime: producer step {case['pstep']}, consumer steps {case['csteps']}: listing {o} differs from {names} in {what}: {sig.get('series')} vs {base.get('series')}", dict(case, stack=True, order=list(o))))
+    res["transitions"] = res["states"]
+    res["sample"] = dict(case)
+    return res
+
+
 def replay(case):
+    if case.get("stack"):
+        return run_stack_case(case)["violations"]
     if case.get("connect"):
         return run_connect_case(case)["violations"]
     return run_case(case)["violations"]
@@ -171,6 +267,22 @@ def cases(tier):
             c = with_steps(F.ring(3, {0: mat}, end=8, chord=(0, 2, mat)), st)
             if classify(c) != "between":
                 cs.append(c)
+    # a component that learns its own time only while connecting (time is None before): the start of the composition comes from the others
+    for fam in ("pair", "line3", "join3"):
+        for which in range(3):
+            for starts in ([0, 0, 0], [1, 0, 0], [0, 1, 0], [2, 1, 0], [0, 2, 1]):
+                for ch in ([], [F.TOK["L"]]):
+                    c = F.pair(ch, end=8) if fam == "pair" else (F.line3(ch, [], end=8) if fam == "line3" else F.join3(ch, [], end=8))
+                    n = len(c["comps"])
+                    if which >= n:
+                        continue
+                    c = with_steps(c, ([1], [2], [3])[:n])
+                    for x, s0 in zip(c["comps"], starts):
+                        x["start"] = s0
+                    c["comps"][which]["late_time"] = True
+                    if all(x["start"] > 0 or x.get("late_time") for x in c["comps"]):
+                        continue
+                    cs.append(c)
     return [dict(cfg=c, full=not q) for c in cs]
 
 
@@ -179,6 +291,9 @@ def run(tier, seed, agg):
     k = seed % len(cs)
     cs = cs[k:] + cs[:k]
     for r in pmap(run_case, cs, chunksize=2):
+        agg.add(r)
+    stack = [dict(stack=True, pstep=p, csteps=list(cst), end=12) for p in (1, 2, 3) for n in (1, 2, 3) for cst in itertools.product((1, 2, 3, 4), repeat=n) if n < 3 or tier != "quick" or cst[0] <= cst[1] <= cst[2]]
+    for r in pmap(run_stack_case, stack, chunksize=4):
         agg.add(r)
     # connect phase: dependency shapes of metadata / initial data exchange (harness of C06), every listing and link order against the identity order
     from checks import c06
@@ -191,6 +306,7 @@ def run(tier, seed, agg):
         level="model_checking",
         rule="for every configuration ALL n! listing orders x ALL link-creation orders (<=3 links quick / <=4 thorough; rotations beyond) are executed on the real Composition with fixed cyclic step lists; "
         "the outcome signature (exception class, exchanged infos of every slot, final times, full (time,value) series of every consumer incl. initial pulls) must equal that of the identity order. "
+        "StackTime (collects all publications up to the request): one producer, 1-3 consumers behind their own StackTime, all step combinations from {1,2,3}x{1,2,3,4}, all listing orders, full stacked arrays compared. "
         "Connect phase: the dependency shapes of C06 (metadata / initial data, two-slot components, stuck cycles, fan-out behind an adapter, staged feedback) under all listing and link orders: outcome, stuck-component list, exchanged infos, initial values and initial publications must not depend on the order. "
         "states/transitions = component-update states visited; non-trivial = configurations in which the driver had to break a tie between equally advanced components",
         bound=dict(components="<=4", horizon_h=8, chain_len=1 if tier == "quick" else 2),
